@@ -1,5 +1,5 @@
 (* RawKV/ProofsTop.v — the statements of Props.v, proved from the lemmas of the Proofs files. *)
-From Verif Require Import RawKV.Model RawKV.ProofsStore RawKV.ProofsLoops RawKV.ProofsBatch.
+From Verif Require Import RawKV.Model RawKV.ProofsStore RawKV.ProofsLoops RawKV.ProofsBatch RawKV.ProofsRounds RawKV.ProofsCas.
 
 Lemma filter_length_le {A} (f : A -> bool) l : (length (filter f l) <= length l)%nat.
 Proof. induction l as [|x r IH]; cbn [filter length]; [lia|]. destruct (f x); cbn [length]; lia. Qed.
@@ -90,14 +90,14 @@ Proof.
 Qed.
 
 Lemma c11_batch_get_aligned : forall st sched keys res,
-  batch_get st sched keys = Some res ->
+  batch_get st sched keys = Some (Some res) ->
   res = map (srv_get st) keys /\ length res = length keys.
 Proof.
   intros st sched keys res H. apply batch_get_aligned in H. subst res. split; [reflexivity|apply map_length].
 Qed.
 
 Lemma c11_batch_put_last_wins : forall st sched kvs st',
-  sorted st -> batch_put st sched kvs = Some st' ->
+  sorted st -> batch_put st sched kvs = Some (st', true) ->
   sorted st' /\ st' = fold_left (fun s p => st_put s (fst p) (snd p)) kvs st /\
   forall k, st_get st' k = match find_last kvs k with Some e => Some e | None => st_get st k end.
 Proof.
@@ -105,8 +105,18 @@ Proof.
   split; [subst st'; apply sorted_batch_put; exact Hs|]. split; [exact E|exact G].
 Qed.
 
+Lemma c11_batch_put_partial : forall st sched kvs st' ok,
+  sorted st -> batch_put st sched kvs = Some (st', ok) ->
+  sorted st' /\
+  forall k, st_get st' k = st_get st k \/
+            (In k (map fst kvs) /\ exists e, find_last kvs k = Some e /\ st_get st' k = Some e).
+Proof.
+  intros st sched kvs st' ok Hs H. split; [eapply bput_rounds_sorted; eassumption|].
+  intros k. exact (bput_rounds_partial _ _ _ _ _ _ H k).
+Qed.
+
 Lemma c11_batch_delete : forall st sched keys st',
-  sorted st -> bdel_rounds st sched keys = Some st' ->
+  sorted st -> bdel_rounds st sched keys = Some (st', true) ->
   sorted st' /\ st' = fold_left st_del keys st /\
   forall k, st_get st' k = if existsb (bytes_eqb k) keys then None else st_get st k.
 Proof.
@@ -114,15 +124,55 @@ Proof.
   split; [subst st'; apply sorted_batch_delete; exact Hs|]. split; [exact E|exact G].
 Qed.
 
+Lemma c11_batch_delete_partial : forall st sched keys st' ok,
+  sorted st -> bdel_rounds st sched keys = Some (st', ok) ->
+  sorted st' /\ forall k, st_get st' k = st_get st k \/ (In k keys /\ st_get st' k = None).
+Proof.
+  intros st sched keys st' ok Hs H. split; [eapply bdel_rounds_sorted; eassumption|].
+  intros k. exact (bdel_rounds_partial _ _ _ _ _ H k).
+Qed.
+
+Lemma c11_batch_boundaries_independent :
+  (forall ks, concat (key_chunks ks) = ks) /\
+  (forall kvs ks, concat (put_chunks kvs ks) = ks) /\
+  (forall st keys bs, (forall k, In k keys -> In k (concat bs)) ->
+     assemble keys (flat_map (srv_batch_get st) bs) = map (srv_get st) keys) /\
+  (forall st kvs bs, sorted st ->
+     (forall p, In p (concat bs) -> find_last kvs (fst p) = Some (snd p)) ->
+     (forall k, In k (map fst kvs) -> exists e, In (k, e) (concat bs)) ->
+     fold_left srv_batch_put bs st = fold_left (fun s p => st_put s (fst p) (snd p)) kvs st) /\
+  (forall st keys bs, sorted st -> (forall k, In k (concat bs) <-> In k keys) ->
+     fold_left srv_batch_delete bs st = fold_left st_del keys st).
+Proof.
+  split; [exact key_chunks_ok|]. split; [exact put_chunks_ok|].
+  split; [exact batch_get_any_partition|]. split; [exact batch_put_any_partition|exact batch_delete_any_partition].
+Qed.
+
 Lemma c11_batch_terminates : forall st sched L keys kvs,
-  batch_get st (sched ++ [(L, fun _ => true)]) keys <> None /\
-  batch_put st (sched ++ [(L, fun _ => true)]) kvs <> None.
+  batch_get st (sched ++ [(L, all_served)]) keys <> None /\
+  batch_put st (sched ++ [(L, all_served)]) kvs <> None.
 Proof.
   intros st sched L keys kvs. split.
-  - unfold batch_get. destruct (bget_rounds st (sched ++ [(L, fun _ => true)]) keys) eqn:E; [discriminate|].
+  - unfold batch_get. destruct (bget_rounds st (sched ++ [(L, all_served)]) keys) as [[ps [|]]|] eqn:E; try discriminate.
     exfalso. exact (bget_rounds_final st sched L keys E).
   - apply bput_rounds_final.
 Qed.
+
+Lemma c11_delete_range_interrupted : forall st Ls s e st' c,
+  sorted st -> drange_run st Ls s e = DrFailed st' c ->
+  sorted st' /\ ~ klt c s /\ (c = s \/ e = [] \/ ~ klt e c) /\
+  st' = filter (fun p => negb (lex_leb s (fst p) && lex_ltb (fst p) c)) st /\
+  forall k, st_get st' k = if lex_leb s k && lex_ltb k c then None else st_get st k.
+Proof.
+  intros st Ls s e st' c Hs H. apply drange_run_failed in H. destruct H as [-> [H1 H2]].
+  split; [apply sorted_filter; exact Hs|]. split; [exact H1|]. split; [exact H2|]. split; [reflexivity|].
+  intros k. unfold in_co. rewrite (st_get_filter (fun x => negb (lex_leb s x && lex_ltb x c))).
+  destruct (lex_leb s k && lex_ltb k c); reflexivity.
+Qed.
+
+Lemma c11_delete_range_run_complete : forall st Ls s e,
+  drange_run st (map Some Ls) s e = match drange_loop st Ls s e with Some x => DrDone x | None => DrFuel end.
+Proof. intros. apply drange_run_all_some. Qed.
 
 Lemma c11_cas : forall st k prev nv,
   srv_cas st k prev nv = spec_cas st k prev nv /\
@@ -133,3 +183,7 @@ Proof.
   destruct (opt_bytes_eqb (srv_get st k) prev); cbn [snd]; [apply sorted_put; exact Hs|exact Hs].
 Qed.
 
+
+Lemma c11_atomic_mode : forall st k prev nv,
+  client_cas false st k prev nv = None /\ client_cas true st k prev nv = Some (spec_cas st k prev nv).
+Proof. intros. split; [reflexivity|]. cbn [client_cas]. rewrite cas_correct. reflexivity. Qed.
